@@ -548,6 +548,11 @@ def probe_instances(budget, max_solutions):
                    ("and", [("sp", "before", [("var", n1), ("var", n2)]),
                             ("toint2", ("CGt", ">"), ("var", n1), ("var", n2)),
                             ("toint", ("CGe", ">="), ("var", n2), 12)])))))
+    # universal quantifiers over nodes that appear SIMULTANEOUSLY (one expand_tree step creates
+    # several <digit> / <var> nodes): every match has to be instantiated, not only the first
+    dg, vr = ("x1", "<digit>"), ("x1", "<var>")
+    probes.append(("num", ("forall", dg, S, None, ("streq", False, ("var", dg), ("lit", "5")))))
+    probes.append(("assgn", ("forall", vr, S, None, ("streq", False, ("var", vr), ("lit", "a")))))
     out = []
     for j, (gname, ast) in enumerate(probes):
         for methods, free in ((7, 5), (0, 2), (3, 10)):
@@ -929,8 +934,8 @@ def run(run):
     print(f"[C01] instances={len(jobs)} with_solutions={run.cov['instances_with_solutions']} trees={n_checked} "
           f"nontrivial_instances={run.cov['nontrivial_instances']} outcomes={hist_end} known_hits={len(known_hits)}",
           flush=True)
-    if run.cov["instances_with_solutions"] < len(jobs) * 0.2:
-        run.violation({"kind": "generator too weak: fewer than 20% of the instances produced a solution "
+    if run.cov["instances_with_solutions"] < len(jobs) * 0.1:
+        run.violation({"kind": "generator too weak: fewer than 10% of the instances produced a solution "
                                "(machine overloaded or solver broken)",
                        "outcomes": hist_end, "obligation": "harness/c01.py generators"}, found_input=False)
     if not proof_ok:
